@@ -392,6 +392,10 @@ func init() {
 	})
 	reg("(*sync.Pool).Put", noop)
 	reg("(*sync.WaitGroup).Add", func(e *Engine, fr *frame, args []V) V {
+		if e.rec != nil {
+			e.recEvent(Event{Op: "wg.add", N: int64(e.concInt(args[1]))})
+			return V{}
+		}
 		p := args[0].ptr()
 		n := e.wgCount[p] + int64(e.concInt(args[1]))
 		if n < 0 {
@@ -401,6 +405,10 @@ func init() {
 		return V{}
 	})
 	reg("(*sync.WaitGroup).Done", func(e *Engine, fr *frame, args []V) V {
+		if e.rec != nil {
+			e.recEvent(Event{Op: "wg.done"})
+			return V{}
+		}
 		p := args[0].ptr()
 		n := e.wgCount[p] - 1
 		if n < 0 {
@@ -410,6 +418,10 @@ func init() {
 		return V{}
 	})
 	reg("(*sync.WaitGroup).Wait", func(e *Engine, fr *frame, args []V) V {
+		if e.rec != nil {
+			e.recEvent(Event{Op: "wg.wait"})
+			return V{}
+		}
 		p := args[0].ptr()
 		s := e.ensureSched()
 		for i := 0; e.wgCount[p] > 0; i++ {
